@@ -39,6 +39,72 @@ def any_order_capture_probes(ctx, d):
     d.flags = saved
 
 
+def deref_component_probes(ctx, ws):
+    """Capture names inside $deref fields, judged by construction (no model, identical at every seed). Law 1: a rule whose two
+    items are the SAME item (same names in the same fields) is found on two identical consecutive lines, whatever each name binds,
+    for every non-empty subset of captured fields and both key orders of the mapping. Law 2: when the second line differs from the
+    first in exactly one captured component, the rule is not found. Law 3: a name bound to a component and used later as a plain
+    operand matches the operand with the identical text (register `%rbx` after `(%rbx)`, immediate `0x18` after `0x18(%rdi)`) and
+    not another one."""
+    import itertools
+    from jv import listing as L
+    FIELDS = ("main_reg", "register_multiplier", "constant_multiplier", "constant_offset")
+    lit = {"main_reg": "rbx", "register_multiplier": "rcx", "constant_multiplier": 8, "constant_offset": "0x18"}
+    cap = {"main_reg": "&base", "register_multiplier": "&idx", "constant_multiplier": "&scale", "constant_offset": "&disp"}
+    variants = {"main_reg": "0x18(%rdx,%rcx,8)", "register_multiplier": "0x18(%rbx,%rsi,8)", "constant_multiplier": "0x18(%rbx,%rcx,4)", "constant_offset": "0x20(%rbx,%rcx,8)"}
+    base_op = "0x18(%rbx,%rcx,8)"
+
+    def ask(pattern, rows, want, what):
+        insts, addr = [], 0x401000
+        for m, ops in rows:
+            insts.append(L.SInst(addr, m, list(ops), None, None, 4))
+            addr += 4
+        text = L.render(insts, ctx.rng, labels=False)
+        rule = real.dump_rule({"pattern": pattern})
+        res = real.match(ws.write("dc.yaml", rule), ws.write("dc.s", text), ret="list", search="all", only_addr=True)
+        ctx.ran()
+        ctx.event("deref_component_capture_probes")
+        got = res[0] == "ok" and bool(res[1])
+        ctx.case(("deref-component", rule, text), True, stratum="deref component captures/" + what.split(":")[0], outcome="found" if got else "not found")
+        if res[0] != "ok" or got != want:
+            ctx.disagreement({"deref_component": True, "rule": rule, "listing": text, "want": want},
+                             f"{what}: expected {'found' if want else 'not found'}, got {str(res[1:2])[:120]} | regex={str(res[2])[:400] if res[0] == 'ok' else res[1:]}")
+
+    for n in range(1, 5):
+        for chosen in itertools.combinations(FIELDS, n):
+            for order in (FIELDS, FIELDS[::-1]):
+                deref = {"$deref": {k: (cap[k] if k in chosen else lit[k]) for k in order}}
+                pat = [{"mov": [deref, "%rax"]}, {"mov": [deref, "%rax"]}]
+                ask(pat, [("mov", [base_op, "%rax"]), ("mov", [base_op, "%rax"]), ("ret", [])], True,
+                    f"identical lines: names in {list(chosen)}, keys written {'forward' if order is FIELDS else 'reversed'}")
+                for k in chosen:
+                    ask(pat, [("mov", [base_op, "%rax"]), ("mov", [variants[k], "%rax"]), ("ret", [])], False,
+                        f"one component differs: names in {list(chosen)}, second line differs in {k}")
+    # a component name used again as a plain operand, and a plain operand name used again as a component
+    for pat, rows, want, what in (
+            ([{"mov": [{"$deref": {"main_reg": "&ptr"}}, "%rax"]}, {"push": ["&ptr"]}], [("mov", ["(%rbx)", "%rax"]), ("push", ["%rbx"])], True, "component then operand: same register"),
+            ([{"mov": [{"$deref": {"main_reg": "&ptr"}}, "%rax"]}, {"push": ["&ptr"]}], [("mov", ["(%rbx)", "%rax"]), ("push", ["%rcx"])], False, "component then operand: other register"),
+            ([{"lea": [{"$deref": {"main_reg": "%rdi", "constant_offset": "&size"}}, "%rsi"]}, {"cmp": ["&size", "%rdx"]}], [("lea", ["0x18(%rdi)", "%rsi"]), ("cmp", ["$0x18", "%rdx"])], True,
+             "component then operand: same constant"),
+            ([{"lea": [{"$deref": {"main_reg": "%rdi", "constant_offset": "&size"}}, "%rsi"]}, {"cmp": ["&size", "%rdx"]}], [("lea", ["0x18(%rdi)", "%rsi"]), ("cmp", ["$0x20", "%rdx"])], False,
+             "component then operand: other constant"),
+            ([{"lea": [{"$deref": {"main_reg": "&b", "register_multiplier": "&i", "constant_multiplier": 8}}, "%rsi"]}, {"add": ["&i", "&b"]}],
+             [("lea", ["(%rbx,%rcx,8)", "%rsi"]), ("add", ["%rcx", "%rbx"])], True, "two components then operands: same registers"),
+            ([{"lea": [{"$deref": {"main_reg": "&b", "register_multiplier": "&i", "constant_multiplier": 8}}, "%rsi"]}, {"add": ["&i", "&b"]}],
+             [("lea", ["(%rbx,%rcx,8)", "%rsi"]), ("add", ["%rbx", "%rcx"])], False, "two components then operands: swapped registers"),
+            ([{"push": ["&r"]}, {"mov": [{"$deref": {"main_reg": "&r", "constant_offset": "0x8"}}, "%rax"]}], [("push", ["%rbx"]), ("mov", ["0x8(%rbx)", "%rax"])], True, "operand then component: same register"),
+            ([{"push": ["&r"]}, {"mov": [{"$deref": {"main_reg": "&r", "constant_offset": "0x8"}}, "%rax"]}], [("push", ["%rbx"]), ("mov", ["0x8(%rcx)", "%rax"])], False, "operand then component: other register")):
+        ask(pat, rows + [("ret", [])], want, what)
+
+
+def replay_deref_component(ctx, case):
+    ws = real.Workspace()
+    res = real.match(ws.write("dc.yaml", case["rule"]), ws.write("dc.s", case["listing"]), ret="list", search="all", only_addr=True)
+    ctx.ran()
+    if res[0] != "ok" or bool(res[1]) != case["want"]:
+        ctx.disagreement(case, f"deref component capture probe: expected {'found' if case['want'] else 'not found'}, got {str(res[1:2])[:120]}")
+
+
 def feat(rng):
     r = rng.random()
     if r < 0.15:   # other constructs (items with and without operands carrying times, groups, $not) between definitions and uses:
@@ -330,8 +396,12 @@ def run_shard(ctx):
         case_twin_probes(ctx, d)
     if ctx.shard == 5 % ctx.nshards:
         any_order_capture_probes(ctx, d)
+    if ctx.shard == 6 % ctx.nshards:
+        deref_component_probes(ctx, d.ws)
     d.loop(3500, 300000)
 
 
 def replay(ctx, case):
+    if case.get("deref_component"):
+        return replay_deref_component(ctx, case)
     drive.replay_dsl(ctx, case, QUIRKS, classify)
